@@ -957,16 +957,6 @@ def process_commandline(out: OutputBuffer, args: List[str]) -> 'AuditConf':  # p
         list_policies(out, aconf.verbose)
         sys.exit(exitcodes.GOOD)
 
-    if aconf.client_audit is False and aconf.target_file is None:
-        if oport is not None:
-            host = argument.host
-        else:
-            host, port = Utils.parse_host_and_port(argument.host)
-
-        if not host and aconf.target_file is None:
-            out.fail("target host is not specified", write_now=True)
-            sys.exit(exitcodes.UNKNOWN_ERROR)
-
     if oport is None and aconf.client_audit:  # The default port to listen on during a client audit is 2222.
         port = 2222
 
@@ -974,6 +964,14 @@ def process_commandline(out: OutputBuffer, args: List[str]) -> 'AuditConf':  # p
         port = Utils.parse_int(oport)
         if port < 1 or port > 65535:
             out.fail("port must be greater than 0 and less than 65535: {}".format(oport), write_now=True)
+            sys.exit(exitcodes.UNKNOWN_ERROR)
+
+    if aconf.client_audit is False and aconf.target_file is None:
+        # The target is always parsed, so that "[IPv6]" and "host:port" name the same host with and without -p/--port; as in a targets file, -p/--port is the default for a target that carries no port of its own.
+        host, port = Utils.parse_host_and_port(argument.host, default_port=port)
+
+        if not host and aconf.target_file is None:
+            out.fail("target host is not specified", write_now=True)
             sys.exit(exitcodes.UNKNOWN_ERROR)
 
     aconf.host = host
